@@ -258,7 +258,8 @@ func vxDecodedWithTrailing() *Message {
 	if n := vxChoose(3); n > 0 {
 		m.Add(AttrType(vxU16()&0x7FF0), vxBytes(n+2, n+2))
 	}
-	t := 1 + vxChoose(4)
+	// fewer and more trailing bytes than the TLV that is appended afterwards (8 for FINGERPRINT, 24 for MESSAGE-INTEGRITY)
+	t := []int{1, 2, 3, 4, 9, 12, 25, 40}[vxChoose(8)]
 	raw := make([]byte, len(m.Raw)+t, len(m.Raw)+t+vxChoose(2)*32)
 	copy(raw, m.Raw)
 	copy(raw[len(m.Raw):], vxBytes(t, t))
